@@ -86,7 +86,7 @@ def gen(ctx):
         s = ''.join(rnd.choice(alpha) for _ in range(n))
         return s.strip('-') or 'x'
     tlds = ['com', 'net', 'example', 'co.uk', 'x-y', '0']
-    for _ in range(60 if ctx.thorough else 16):
+    for _ in range(60 if ctx.thorough else 8):
         n = rnd.choice([10, 50, 50, 120] if ctx.thorough else [10, 30, 50])
         vals, probes = [], set()
         for _ in range(n):
@@ -103,7 +103,7 @@ def gen(ctx):
                        '0.' + root, 'z.' + root, '-.' + root}
         probes = sorted(p for p in probes if p and not p.startswith('.'))
         rnd.shuffle(probes)
-        add(vals, probes[:250 if ctx.thorough else 120])
+        add(vals, probes[:250 if ctx.thorough else 80])
     return lines, nsmall
 
 
@@ -129,7 +129,7 @@ def run(ctx):
     ctx.log('design step passed; driver built; %d lists (%d exhaustive small-universe)' % (len(lines), nsmall))
     outs = A.run_lines(exe, lines)
     prej, irej = ucheck.conformance(ctx, os.path.join(A.SPEC, 'Conf_DomainAcl.tla'), os.path.join(A.SPEC, 'Conf_DomainAcl.cfg'), outs, 'domain',
-                                    chunk=4000, timeout=3000)
+                                    chunk=4000 if ctx.thorough else 1500, timeout=3000)
     pairs = sum(len(o['probes']) for o in outs)
     ctx.log('TLC evaluated %d lists / %d (list, host) pairs: P-rejected lists %d, I-rejected %d' % (len(outs), pairs, len(prej), len(irej)))
     for i in prej:
